@@ -9,6 +9,8 @@ CONSTANTS
   MaxEmit = 3
   MaxHandles = 2
   CoroMode = TRUE
+  Hooked = {}
+  RegEmit = 0
   Strict = FALSE
 INVARIANTS TypeOK ChainWellFormed CurValid AllWaitingGetIt OncePerEmit NoDanglingRead ReAwaitMissesNone DisconnectWakesAll CallbackAnswers NoStuckState
 PROPERTIES DisconnectPromisesCancel AwaitDisconnectedFails CallbacksFreed
